@@ -46,6 +46,18 @@ def generate(ctx):
         ids = (ctx.add('convert_to_comparable %s' % ea).id, ctx.add('convert_to_comparable %s' % eb).id,
                ctx.add('compare %s %s' % (ea, eb)).id)
         ctx.pairs.append((a, b, ids))
+    # the byte walker on buffers that are NOT valid encodings (prefixes, one byte changed): tie only (ComparableWalk.v
+    # models the early returns and the panics of convert_to_comparable on such buffers)
+    small = [v for v in ds if len(gen.enc(v)) <= 100]
+    for v in r.sample(small, min(len(small), ctx.scale(150, 4000))):
+        e = gen.enc(v)
+        muts = [e[:i] for i in range(len(e))] if len(e) <= 32 else [e[:r.randrange(len(e))] for _ in range(10)]
+        for _ in range(14):
+            i = r.randrange(len(e))
+            muts.append(e[:i] + bytes([r.choice([0, 1, 4, 0x10, 0x20, 0x30, 0x40, 0x50, 0x7f, 0x80, 0xff, e[i] ^ 1, e[i] ^ 0x10, (e[i] + 1) & 0xff])]) + e[i + 1:])
+        for m in muts:
+            if m and m[0] in (0x80, 0x40, 0x20):
+                ctx.add('convert_to_comparable %s' % gen.hexarg(m), kind='malformed')
     # numbers of every width and sign against each other (both zeros, fractions next to integers, the 64-bit limits),
     # at top level and at the deciding position inside a container
     nums = [('i', x) for x in gen.INT_POOL] + [('u', x) for x in gen.UINT_POOL] + [('d', x) for x in gen.FLOAT_POOL + gen.SPECIAL_FLOATS[:3]]
